@@ -30,6 +30,10 @@ def main():
     tasks = [("builtin", n, per, chk.seed, configs, None) for n in names]
     results = U.run_tasks(tasks)
     totals = U.collect(results, chk, props={"C04"})
+    # every Integer argument position x every machine-word edge, other arguments as generated
+    edges = U.run_tasks([("builtin-edges", n, 1 if quick else 6, chk.seed + 2, configs, None) for n in names])
+    etotals = U.collect(edges, chk, props={"C04"})
+    chk.count("integer_edge_cases", etotals["cases"])
     # determinism: the same seeded cases again, in fresh processes, fed in reverse order:
     # "a builtin never answers differently for equal arguments"
     again = U.run_tasks([("builtin", n, per, chk.seed, configs, "reverse") for n in names])
